@@ -137,6 +137,13 @@ func init() {
 		[]Stage{en("c19bloom", 16, 60, nil), en("c18table", 16, 40, prm("bloom_only", true))},
 		[]Stage{en("c19bloom", 16, 900, prm("full32", true)), en("c18table", 16, 300, prm("bloom_only", true, "full_grid", true))})
 
+	planTable["C05"] = enumPlan("exploration",
+		"Databases: every subset of <= 2 (quick; plus 4 prefix-chain triples) / <= 3 (thorough) keys of the universe {a, a\\x00, a\\xff, ab, b, \\xff\\xff} x one of 5 version histories per key (v | v v' | v del | del v | v del v') x every placement of the global write order into 4 storage layers (a deeper level with several small tables, two L0 tables, the memtable; quick: cut points from a 4-value grid, thorough: every cut), inline and value-log values, bloom filters on, plus the internal end-of-transaction keys. Per database: direction x AllVersions x InternalAccess x Prefix {none,a,ab,b,a\\xff} x 6 (readTs, SinceTs) pairs, prefetch mode rotating over {off, size 0/1/2/100}: Rewind and Seek to every universe key and 9 gap probes (12 with internal access) walked to the end, Rewind after Seek, NewKeyIterator for every universe key, Valid/ValidForPrefix agreement; each item's key, version, value (Value and ValueCopy), user meta and deleted flag compared with a sorted-list reference model.",
+		"Managed-mode on-disk DB so that versions and read timestamps are chosen; seeks outside the iterator's own prefix are not compared (unspecified).",
+		"nested enumeration; distinct = distinct (key subset, histories, layer cuts) databases; counters: databases, walks",
+		[]Stage{en("c05iter", 16, 100, prm("max_keys", 2))},
+		[]Stage{en("c05iter", 16, 1500, prm("max_keys", 3, "all_cuts", true))})
+
 	planTable["C18"] = enumPlan("exploration",
 		"Every non-empty subset (255) of 8 internal keys over user keys {a,aa,aab,ab,b} (shared-prefix shapes that exercise the overlap/diff key reconstruction, two versions per key) x 4 value-size patterns around the block size (0, 10, blockSize-20, blockSize+20 bytes) with varying meta, user meta and expiry, built by the production Builder under block size {64,4096} x {none,snappy,zstd} x {plain,AES-128/192/256} x bloom {off,0.01} x 4 checksum modes x {file, in-memory} (quick: a rotating sixteenth of the 192-option grid per table, every option combination used by about 64 tables; thorough: the full grid plus a 65000-byte key and a 64 KiB value): forward and reverse iteration return exactly the input, Seek / SeekForPrev from every universe key and 36 gap probes land on the first entry >= / last entry <=, Rewind after exhaustion restarts, Smallest/Biggest/MaxVersion/KeyCount match, VerifyChecksum passes; ConcatIterator over every split of every subset into <= 3 contiguous tables (both directions, all seek targets); every byte of the data blocks flipped: a block-verifying table never returns an entry that was not stored.",
 		"Drives table.NewTableBuilder / CreateTable / OpenInMemoryTable / Table.NewIterator / NewConcatIterator directly.",
